@@ -40,12 +40,12 @@ Proof. exact maxshift_normalisation. Qed.
 Print Assumptions C01_posterior_weights_normalised.
 
 (** (4)-(6) imported ingredients: the temperature is coherent across the pipeline (C05), the mutation kernel is
-    pi_beta-invariant away from hard boundaries (C03; at hard boundaries it balances pi*P_in: known finding),
+    pi_beta-reversible, out-of-cube proposals being rejected (C03),
     resampling copies floor/ceil(n w) (C06) *)
 Theorem C01_ingredients :
   Gen.Schedule.other_steps_writing_beta = 0%nat
   /\ Gen.Posterior.weights_are_exp_logw_normalised_at_beta_one = true
   /\ Gen.Resample.loop_bounded = true
-  /\ Gen.Kernel.out_of_cube_proposals_are_redrawn = true.
+  /\ Gen.Kernel.out_of_cube_proposals_are_rejected = true.
 Proof. repeat split. Qed.
 Print Assumptions C01_ingredients.
